@@ -266,3 +266,24 @@ func Describe(facts []Ineq) string {
 	}
 	return strings.Join(s, "; ")
 }
+
+// Subst replaces variables of t: a variable in m by its term, any other
+// variable by rename(name).
+func Subst(t Term, m map[string]Term, rename func(string) string) Term {
+	out := ConstBig(t.C)
+	for v, c := range t.Vs {
+		var rep Term
+		if r, ok := m[v]; ok {
+			rep = r
+		} else {
+			rep = Var(rename(v))
+		}
+		// rep scaled by c
+		sc := Term{C: new(big.Int).Mul(rep.C, c), Vs: map[string]*big.Int{}}
+		for rv, rc := range rep.Vs {
+			sc.Vs[rv] = new(big.Int).Mul(rc, c)
+		}
+		out = out.Add(sc)
+	}
+	return out
+}
